@@ -85,14 +85,14 @@ def run(ctx):
     cases = [(d, charts.events_for(rng, charts.Gen(rng), 3)) for d, _ in accepted]
     st2 = dict(inputs=len(cases), legal=0, known=0, violations=0, accepted_although_corrupted=sum(1 for _, k in accepted if k))
     if cases:
-        T, _ = E.run_batches(ctx, [E.case_line("large", d, e) for d, e in cases], want_driver=False)
+        T, TM = E.run_batches(ctx, [E.case_line("large", d, e) for d, e in cases])
         leg = c02.legality(ctx, cases, T)
-        for (d, evs), (_, k), t, lg in zip(cases, accepted, T, leg):
+        for (d, evs), (_, k), t, tm, lg in zip(cases, accepted, T, TM, leg):
             toks = t.split(" ")
             p = c02.problems(toks, lg)
             if any(x.startswith(("CRASH", "EXC", "EXIT")) for x in toks): p = "interpreter failed: " + [x for x in toks if x.startswith(("CRASH", "EXC", "EXIT"))][0]
             if p is None: st2["legal"] += 1; continue
-            if "hist-shared" in c01.classify(d): st2["known"] += 1; ctx.known("hist-shared", ""); continue
+            if "hist-shared" in c01.classify(d) and t == tm: st2["known"] += 1; ctx.known("hist-shared", ""); continue     # exactly the recorded behaviour
             st2["violations"] += 1
             if len(ctx.violations) < 4:
                 ctx.violation("unsound-%d" % len(ctx.violations), "validate-soundness", [E.case_line("large", d, evs)],
